@@ -5,7 +5,7 @@
     - both separators of the regenerated table - between adjacent tokens. *)
 From Coq Require Import ZArith List Bool Lia Arith.
 From ChibiV Require Import C08.Datum C08.CSem C08.Tables Gen.C08_Tables Gen.C08_Leaf C08.Write C08.Read
-  C08.Model3 C08.Proofs C08.CharProofs.
+  C08.Model3 C08.Model4 C08.Proofs C08.CharProofs.
 Import ListNotations.
 Local Open Scope Z_scope.
 Ltac Zify.zify_post_hook ::= Z.div_mod_to_equations.
@@ -53,7 +53,13 @@ Section Compound.
   Hypothesis flo_roundtrip : forall b, flo_ok b -> forall f rest, at_delim rest = true ->
     read_raw dec2flo (S f) (write_flo fmt_g scan_g b ++ rest) = Ok (TDatum (Flo b)) rest.
 
-  Notation wr := (write fmt_g scan_g).
+  (** round 4: the character arm of the writer is a parameter too ([write_gen], C08/Model4.v):
+      [write_char] = sexp_write_one, [swrite_char] = the library writer of lib/srfi/38.scm *)
+  Variable wchr : Z -> list Z.
+  Hypothesis chr_roundtrip : forall c, 0 <= c <= 1114111 -> forall f rest, at_delim rest = true ->
+    read_raw dec2flo (S f) (wchr c ++ rest) = Ok (TDatum (Chr c)) rest.
+
+  Notation wr := (write_gen wchr fmt_g scan_g).
   Notation rd := (read_raw dec2flo).
 
   Lemma read_raw_space : forall f s, rd (S f) (32 :: s) = rd (S f) s.
@@ -105,7 +111,7 @@ Section Compound.
   Lemma tl_write_pair : forall t a, tl (wr (Pair a t)) = wr a ++ tail_text t.
   Proof.
     induction t as [| | | | | | |a2 _ t2 IH| |]; intros a; try reflexivity.
-    cbn [write tl tail_text]. f_equal. f_equal. specialize (IH a2). cbn [write tl] in IH. exact IH.
+    cbn [write_gen tl tail_text]. f_equal. f_equal. specialize (IH a2). cbn [write_gen tl] in IH. exact IH.
   Qed.
 
   Lemma write_pair : forall a t, wr (Pair a t) = 40 :: wr a ++ tail_text t.
@@ -218,7 +224,7 @@ Section Compound.
       split; [exact Pd|apply atom_T; [exact Pd|exact I]].
     - (* Chr *)
       assert (Pd : RtP (Chr c)).
-      { intros Hw f rest Hf Hd. destruct f as [|f]; [lia|]. apply char_roundtrip_native; assumption. }
+      { intros Hw f rest Hf Hd. destruct f as [|f]; [lia|]. apply chr_roundtrip; assumption. }
       split; [exact Pd|apply atom_T; [exact Pd|exact I]].
     - (* Str *)
       assert (Pd : RtP (Str s)).
@@ -231,12 +237,12 @@ Section Compound.
     - (* Bool *)
       assert (Pd : RtP (Bool b)).
       { intros Hw f rest Hf Hd. destruct f as [|f]; [lia|].
-        destruct b; cbn [write app]; cbn [read_raw skip_ws Z.eqb Pos.eqb orb]; rewrite Hd; reflexivity. }
+        destruct b; cbn [write_gen app]; cbn [read_raw skip_ws Z.eqb Pos.eqb orb]; rewrite Hd; reflexivity. }
       split; [exact Pd|apply atom_T; [exact Pd|exact I]].
     - (* Nil *)
       split.
       + intros _ f rest Hf Hd. destruct f as [|[|f]]; [lia|lia|].
-        cbn [write app]. rewrite read_raw_list. cbn [list_loop]. rewrite read_raw_close. reflexivity.
+        cbn [write_gen app]. rewrite read_raw_list. cbn [list_loop]. rewrite read_raw_close. reflexivity.
       + intros _ f n acc rest Hacc Hf Hn. destruct n as [|n']; [lia|]. destruct f as [|f']; [lia|].
         cbn [tail_text app list_loop]. rewrite read_raw_close. reflexivity.
     - (* Pair *)
@@ -260,9 +266,9 @@ Section Compound.
         destruct f as [|[|f2]]; [lia|lia|].
         assert (HP : Forall RtP l) by (eapply Forall_impl; [|exact HQ]; intros x [Hx _]; exact Hx).
         destruct l as [|e l'].
-        - cbn [write app]. rewrite read_raw_vec, read_raw_list.
+        - cbn [write_gen app]. rewrite read_raw_vec, read_raw_list.
           destruct f2 as [|f3]; [lia|]. cbn [list_loop]. rewrite read_raw_close. reflexivity.
-        - cbn [write]. rewrite <- !app_assoc. cbn [app]. rewrite read_raw_vec, read_raw_list.
+        - cbn [write_gen]. rewrite <- !app_assoc. cbn [app]. rewrite read_raw_vec, read_raw_list.
           destruct f2 as [|n']; [lia|]. cbn [list_loop].
           inversion HP as [|? ? HPe HPl]; subst.
           rewrite (HPe (wfd_vec_in _ e Hw (or_introl eq_refl)) (S n'));
@@ -277,9 +283,9 @@ Section Compound.
       { intros Hw f rest Hf Hd. cbn [height] in Hf. cbn [wfd] in Hw.
         destruct f as [|[|f2]]; [lia|lia|].
         destruct l as [|e l'].
-        - cbn [write write_bytes app]. rewrite read_raw_u8, read_raw_list.
+        - cbn [write_gen write_bytes app]. rewrite read_raw_u8, read_raw_list.
           destruct f2 as [|f3]; [cbn [length] in Hf; lia|]. cbn [list_loop]. rewrite read_raw_close. reflexivity.
-        - cbn [write]. unfold write_bytes. rewrite <- !app_assoc. cbn [app]. rewrite read_raw_u8, read_raw_list.
+        - cbn [write_gen]. unfold write_bytes. rewrite <- !app_assoc. cbn [app]. rewrite read_raw_u8, read_raw_list.
           cbn [length] in Hf. destruct f2 as [|n']; [lia|]. cbn [list_loop].
           inversion Hw as [|? ? Hbe Hbl]; subst.
           rewrite u8_roundtrip; [|assumption|destruct l'; reflexivity].
@@ -294,6 +300,13 @@ Section Compound.
   Proof. intros d f rest Hw Hf Hd. destruct (datum_PT d) as [Pd _]. apply Pd; assumption. Qed.
 End Compound.
 
+(** ** the native writer is the instance wchr := write_char *)
+Lemma write_gen_native : forall fmt_g scan_g d, write_gen write_char fmt_g scan_g d = write fmt_g scan_g d.
+Proof.
+  (* the two fixpoints have the same body once wchr is instantiated: convertible *)
+  intros fmt_g scan_g. induction d using datum_ind'; reflexivity.
+Qed.
+
 (** ** the closed instance: data without flonum leaves; libc parameters arbitrary *)
 Definition wfd0 : datum -> Prop := wfd (fun _ => False).
 
@@ -301,9 +314,47 @@ Theorem list_vector_bytes_roundtrip_ok : forall fmt_g scan_g dec2flo d f rest,
   wfd0 d -> (height d + 2 <= f)%nat -> at_delim rest = true ->
   read_raw dec2flo f (write fmt_g scan_g d ++ rest) = Ok (TDatum d) rest.
 Proof.
-  intros fmt_g scan_g dec2flo d f rest Hw Hf Hd.
+  intros fmt_g scan_g dec2flo d f rest Hw Hf Hd. rewrite <- write_gen_native.
   apply (datum_roundtrip_gen fmt_g scan_g dec2flo (fun _ => False)); try assumption.
-  intros b [].
+  - intros b [].
+  - intros c Hc f0 rest0 Hd0. apply char_roundtrip_native; assumption.
+Qed.
+
+(** ** round 4: the same for the text (scheme write) emits (lib/srfi/38.scm wr-one on a tree) *)
+Theorem scheme_write_roundtrip_ok : forall fmt_g scan_g dec2flo d f rest,
+  wfd0 d -> (height d + 2 <= f)%nat -> at_delim rest = true ->
+  read_raw dec2flo f (swrite fmt_g scan_g d ++ rest) = Ok (TDatum d) rest.
+Proof.
+  intros fmt_g scan_g dec2flo d f rest Hw Hf Hd. unfold swrite.
+  apply (datum_roundtrip_gen fmt_g scan_g dec2flo (fun _ => False)); try assumption.
+  - intros b [].
+  - intros c Hc f0 rest0 Hd0. apply char_roundtrip_library; assumption.
+Qed.
+
+(** the two writers print the same text unless a character leaf has two different texts
+    (control characters other than the named ones, DEL excluded, and everything from U+0080 up) *)
+Theorem writers_agree_ok : forall fmt_g scan_g d, same_char_text d = true ->
+  swrite fmt_g scan_g d = write fmt_g scan_g d.
+Proof.
+  intros fmt_g scan_g d. rewrite <- write_gen_native. unfold swrite.
+  induction d as [z|b|c|s|s|b| |a t IHa IHt|l HQ|l] using datum_ind'; intros H; try reflexivity.
+  - cbn [same_char_text] in H. cbn [write_gen].
+    destruct (list_eq_dec Z.eq_dec (swrite_char c) (write_char c)) as [E|E]; [exact E|discriminate].
+  - cbn [same_char_text] in H. apply andb_prop in H. destruct H as [Ha Ht].
+    cbn [write_gen]. rewrite (IHa Ha), (IHt Ht). reflexivity.
+  - cbn [same_char_text] in H. destruct l as [|e l']; [reflexivity|]. cbn [write_gen].
+    cbn [forallb] in H. apply andb_prop in H. destruct H as [He Hl'].
+    inversion HQ as [|? ? Pe Pl]; subst. rewrite (Pe He). do 2 f_equal. f_equal.
+    clear Pe HQ He. induction Pl as [|x l2 Hx Pl IH]; [reflexivity|].
+    cbn [forallb] in Hl'. apply andb_prop in Hl'. destruct Hl' as [Hx' Hl2].
+    cbn [flat_map]. rewrite (Hx Hx'), (IH Hl2). reflexivity.
+Qed.
+
+(** printable ASCII and the nine named characters have one text *)
+Lemma same_char_text_ascii : forall c, 32 <= c < 128 -> same_char_text (Chr c) = true.
+Proof.
+  intros c Hc. assert (H : forallb (fun c => same_char_text (Chr c)) (map Z.of_nat (seq 32 96)) = true) by (vm_compute; reflexivity).
+  rewrite forallb_forall in H. apply H. apply in_map_iff. exists (Z.to_nat c). split; [lia|]. apply in_seq. lia.
 Qed.
 
 (** ((1 . #\x) #("a" #u8(0 255)) |b c| . #t) *)
@@ -315,9 +366,28 @@ Definition compound_example : datum :=
 Example list_vector_bytes_roundtrip_example :
   wfd0 compound_example /\ height compound_example = 8%nat /\
   read_raw (fun _ _ _ => 0) 10 (write (fun _ _ => []) (fun _ => None) compound_example ++ [32; 49]) =
+  Ok (TDatum compound_example) [32; 49] /\
+  read_raw (fun _ _ _ => 0) 10 (swrite (fun _ _ => []) (fun _ => None) compound_example ++ [32; 49]) =
   Ok (TDatum compound_example) [32; 49].
 Proof.
-  split; [|split; [reflexivity|vm_compute; reflexivity]].
+  split; [|split; [reflexivity|split; vm_compute; reflexivity]].
   unfold wfd0, compound_example. cbn [wfd fold_right]. unfold bytes, byte.
+  repeat split; try lia; repeat constructor; lia.
+Qed.
+
+(** (#\x7 #(#\x3bb "a") . #\space): the library writer prints U+0007 as "alarm" (its own table), U+03BB raw *)
+Definition swrite_example : datum :=
+  Pair (Chr 7) (Pair (Vec [Chr 955; Str [97]]) (Chr 32)).
+
+Example scheme_write_roundtrip_example :
+  wfd0 swrite_example /\
+  swrite (fun _ _ => []) (fun _ => None) swrite_example =
+    [40; 35; 92; 97; 108; 97; 114; 109; 32; 35; 40; 35; 92; 206; 187; 32; 34; 97; 34; 41; 32; 46; 32; 35; 92; 115; 112; 97; 99; 101; 41] /\
+  same_char_text swrite_example = false /\
+  read_raw (fun _ _ _ => 0) 7 (swrite (fun _ _ => []) (fun _ => None) swrite_example ++ [41]) =
+  Ok (TDatum swrite_example) [41].
+Proof.
+  split; [|split; [vm_compute; reflexivity|split; vm_compute; reflexivity]].
+  unfold wfd0, swrite_example. cbn [wfd fold_right]. unfold bytes, byte.
   repeat split; try lia; repeat constructor; lia.
 Qed.
